@@ -33,7 +33,7 @@ def configure(live_ids, tier, opts):
 
 
 def _profile():
-    return docs.profile(max_ops=0, max_schemas=4, max_props=5, max_depth=2, inline_allof=True, affix_names=True, prefix_items=True, quote_enum_values=True,
+    return docs.profile(max_ops=0, max_schemas=4, max_props=5, max_depth=2, inline_allof=True, affix_names=True, prefix_items=True, quote_enum_values=True, defaults=True,
                         date_datetime_union="KF-C02-02" not in _live,
                         two_array_union="KF-C02-03" not in _live,
                         bool_intenum_union="KF-C02-04" not in _live,
